@@ -607,7 +607,9 @@ func decTrial(r *vh.Rng, idx int, sum *vh.Summary, cv *vh.Cases, caseID *int) {
 		if same && e1 == nil {
 			same = vh.DeepEq(reflect.ValueOf(t1).Elem(), reflect.ValueOf(t2).Elem(), vh.EqOpts{})
 		}
-		if same && useIO && cr.drawn != fcr.drawn {
+		// bytes drawn from the wrapped reader: only specified when unbuffered (with ReaderBufferSize > 0 the
+		// read-ahead depends on the capacity of the buffer, which a reset instance keeps from its past)
+		if rbs, _ := o["ReaderBufferSize"].(int); same && useIO && rbs == 0 && cr.drawn != fcr.drawn {
 			same = false
 		}
 		if !same {
